@@ -51,8 +51,9 @@ def route(rep, model, method='cycles', detector='detect_bursts_cycles', rule='RO
     keys = [p for p in det.params[1:]]
     for rs in (T.TRUE, T.FALSE):
         tk = ('dict', tuple(sorted((k, ('param', 'T_' + k)) for k in keys)))
-        res, ctx = E.run(model, 'compute_features', {'burst_method': C(method), 'threshold_kwargs': tk, 'burst_kwargs': NONE, 'return_samples': rs},
-                         no_inline=E.HEAVY)
+        res, ctx = E.run(model, 'compute_features', {'burst_method': C(method), 'threshold_kwargs': tk, 'burst_kwargs': NONE, 'return_samples': rs,
+                                                    'center_extrema': ('param', 'center_extrema'), 'find_extrema_kwargs': ('param', 'find_extrema_kwargs')},
+                         no_inline=E.HEAVY, kinds={'fs': 'num', 'f_range': 'tuple'})
         evs = E.calls_to(ctx, detector)
         inst = f'return_samples={rs[1]}'
         if len(evs) != 1 or evs[0]['guard'] != T.TRUE or evs[0]['loops']:
@@ -67,11 +68,21 @@ def route(rep, model, method='cycles', detector='detect_bursts_cycles', rule='RO
                           found=f'mismatch {bad}; bound {[(k, T.brief(v, 30)) for k, v in e["bound"].items() if k != det.params[0]]}')
         else:
             rep.ok(rule, inst + ':thresholds', site, found=f'{len(keys)} keys bound by name')
+        sh = [x for x in E.calls_to(ctx, 'compute_shape_features') if x['kind'] == 'pkgcall']
+        want_sh = {'sig': ('param', 'sig'), 'fs': ('param', 'fs'), 'f_range': ('param', 'f_range'), 'center_extrema': ('param', 'center_extrema'),
+                   'find_extrema_kwargs': ('param', 'find_extrema_kwargs')}
+        if len(sh) == 1 and sh[0]['bound'] == want_sh and sh[0]['guard'] == T.TRUE and not sh[0]['problems']:
+            rep.ok(rule, inst + ':shape call', site, found='compute_shape_features(sig, fs, f_range, center_extrema=, find_extrema_kwargs=) bound by name')
+        else:
+            rep.violation(rule, inst + ':shape call', site, expected={k: T.show(v) for k, v in want_sh.items()},
+                          found=[{k: T.brief(v, 40) for k, v in x['bound'].items()} for x in sh] or 'no call')
         tbl = e['bound'].get(det.params[0])
         feats = {c[1] for c in T.walk(tbl) if c[0] == 'call'} if tbl else set()
         need = {'compute_shape_features', 'concat'} | ({'compute_amp_fraction', 'compute_amp_consistency', 'compute_period_consistency', 'compute_monotonicity'}
                                                       if method == 'cycles' else {'compute_burst_fraction'})
-        if need <= feats:
+        cc = [x for x in T.walk(tbl) if x[0] == 'call' and x[1] == 'concat'] if tbl else []
+        axis_ok = bool(cc) and all(dict(x[3]).get('axis', x[2][1] if len(x[2]) > 1 else None) == C(1) for x in cc)
+        if need <= feats and axis_ok:
             rep.ok(rule, inst + ':table', site, found=T.brief(tbl, 120))
         else:
             rep.violation(rule, inst + ':table', site, expected=f'concat of burst and shape features ({sorted(need)})', found=T.brief(tbl, 200) if tbl else None)
